@@ -42,6 +42,10 @@ CHECKS = {
          "runtime monitor of the real compile entry point (stand-alone binary: panic = rejection) and of `go build` of the generated package, over the supported-subset program streams x import styles",
          "Exploration: every supported-subset program of the streams in 5 import styles; a compiler panic or an unbuildable generated package is attributed to a single program by re-running it alone.",
          E1NOTE),
+ "C17": ("E4 stack-depth",
+         "runtime monitor: runtime.Callers depth sampled inside loop bodies/conditions of compiled generators and raw seq loops at iteration indices 2..n, one child process per configuration; bounded-growth oracle",
+         "Exploration: 15 loop configurations (all loop forms produced by the real compiler + raw seq.For/While/Loop/Combine terms) with a body that yields only on the last of 10^5 (thorough 10^6) iterations; depth(i) - depth(10) <= 16 frames; delegation chains d=1..24 (64): constant increment per level. 'For all n' is restated as bounded growth up to the stated n.",
+         ASSUME + "A finite run cannot decide the limit n -> infinity; growth rather than absolute depth is judged."),
  "C18": ("E1 diff-trace",
          "runtime monitor of panic attribution: every consumer call is wrapped in its own recover and logs where and with which value a panic surfaced; compared with the reference coroutine (iter.Pull propagates the body's panic out of the resuming call)",
          "Exploration: directed cases (panic between yields, in yield arguments, loop conditions, for-post, switch tags, delegates, closures called after a yield, two live iterators) + PRNG programs with tape-guarded explicit and run-time panics at random statement positions; full-trace equality up to and including the panicking call.",
